@@ -278,6 +278,8 @@ def dd_kwargs(opt):
         kw["exclude_regex_paths"] = shaped(rs, sh.get("rx") if sh.get("rx") != "set" else "tuple")   # order matters to a merge
     if opt.get("inc"):
         kw["include_paths"] = shaped(opt["inc"], sh.get("inc"))
+    if opt.get("io"):
+        kw["ignore_order"] = True
     if opt.get("ty"):
         kw["exclude_types"] = shaped([TYPES[n][0] for n in opt["ty"]], sh.get("ty") if sh.get("ty") != "bare" else "list")
     for k, name in CB_ARGS.items():
@@ -481,7 +483,9 @@ def simple_str_key(e):
 
 
 def pyval(s):
-    return eval(s, {"__builtins__": {}}, {"set": set, "frozenset": frozenset})
+    import datetime
+    from decimal import Decimal
+    return eval(s, {"__builtins__": {}}, {"set": set, "frozenset": frozenset, "datetime": datetime, "Decimal": Decimal})
 
 
 def analyse(case):
@@ -687,12 +691,20 @@ def alias_feature(case, t1, t2, spec):
     return False
 
 
-MATCHERS = {"K13a-threshold-shortcut": m_threshold,
-            "K13e-alias-key-spelling": m_alias_key,
-            "K13d-exclude-under-include": m_exclude_under_include,
-            "K13b-include-substring": m_include_substring,
-            "K10-include-key-format": m_include_key_format,
-            "K13c-set-member-index": m_set_member}
+def _core_only(m):
+    """cases of the extended-key stream (dict keys outside the Coq universe; no canonical positions) are never
+    attributed to a known finding"""
+    def f(case):
+        return False if case.get("ext") else m(case)
+    return f
+
+
+MATCHERS = {"K13a-threshold-shortcut": _core_only(m_threshold),
+            "K13e-alias-key-spelling": _core_only(m_alias_key),
+            "K13d-exclude-under-include": _core_only(m_exclude_under_include),
+            "K13b-include-substring": _core_only(m_include_substring),
+            "K10-include-key-format": _core_only(m_include_key_format),
+            "K13c-set-member-index": _core_only(m_set_member)}
 
 
 # --------------------------------------------------------------------------
@@ -1246,6 +1258,7 @@ def oracle_one(t1, t2, opt, base_tree, base_text, rng, do_text=True, do_indep=Tr
         if g != (got == want):
             flags["exact_break"] = {"name": "C13_exclude_threshold_exact not observed", "case": case_dict(t1, t2, opt),
                                     "guard": g, "equation_holds": got == want}
+    flags["eq_holds"] = (got == want)
     if inq and got != want:
         tree_ok = False
         extra = [e[:2] for e in got if e not in want]
@@ -1274,6 +1287,8 @@ def oracle_one(t1, t2, opt, base_tree, base_text, rng, do_text=True, do_indep=Tr
                                   "content under the excluded path %s changes the entries elsewhere: %r vs %r" % (
                                       render(q), [x for x in a if x not in b][:3], [x for x in b if x not in a][:3])))
                 flags["indep"] = True
+                if not set_member_hit(t1, t2, opt, spec) and not set_member_hit(t1b, t2b, opt):
+                    flags["indep_case"] = (t1b, t2b, a == b)
     return fails, nontrivial, got, flags
 
 
@@ -1297,7 +1312,7 @@ def _work(args):
     seed, npairs, nopts = args
     sys.path.insert(0, core.REPO)
     rng = random.Random(seed)
-    cases, fails, counts, seen, samples, breaks = [], [], {}, [], [], []
+    cases, fails, counts, seen, samples, breaks, gcases = [], [], {}, [], [], [], []
 
     def cnt(k, n=1):
         counts[k] = counts.get(k, 0) + n
@@ -1375,9 +1390,34 @@ def _work(args):
             if hit:
                 cnt("set_member_hit(in correspondence)")
             cases.append((model_expr(a, b, opt, spec, hits), got, case_dict(t1, t2, opt)))
+            # the hypotheses of the guarded theorems as Coq booleans on the inputs of this real run
+            if flags.get("exact") and "eq_holds" in flags:
+                gcases.append(("c13_xguard %s %s %s %s %s" % (
+                    core.coq_list(D.coq_pathc(p) for p in spec.rx_table()),
+                    core.coq_list(core.coq_pystr(s) for s in opt.get("ex", ())),
+                    D.coq_cfg(opt["zip"], opt["thr"]), V.to_coq(a), V.to_coq(b)),
+                    flags["eq_holds"], case_dict(t1, t2, opt, theorem="C13_exclude_threshold_exact")))
+                cnt("coq_xguard_evaluated:" + ("equation_holds" if flags["eq_holds"] else "equation_fails"))
+            if flags.get("indep_case") and not vo:
+                t1b, t2b, same = flags["indep_case"]
+                gcases.append(("c13_indep_implies %s %s %s %s %s %s %s %s" % (
+                    core.coq_list(D.coq_pathc(p) for p in spec.rx_table()),
+                    core.coq_list(core.coq_pystr(s) for s in opt.get("ex", ())),
+                    D.coq_cfg(opt["zip"], opt["thr"]), V.to_coq(t1), V.to_coq(t2), V.to_coq(t1b), V.to_coq(t2b), core.coq_bool(same)),
+                    True, case_dict(t1, t2, opt, t1b=repr(t1b), t2b=repr(t2b), theorem="C13_exclude_independent_guarded")))
+                cnt("coq_independence_hypotheses_evaluated")
+            if flags.get("exact") and "eq_holds" in flags:
+                pass
+            elif (opt.get("inc") and not opt.get("ex") and not opt.get("rx") and not vo and not hit and "eq_holds" in flags
+                  and all(x.startswith("root") for x in opt["inc"]) and len(spec.inc_paths) == len(set(opt["inc"]))):
+                gcases.append(("c13_iguard_implies %s %s %s %s %s" % (
+                    core.coq_list(D.coq_pathc(q) for q in spec.inc_paths),
+                    D.coq_cfg(opt["zip"], opt["thr"]), V.to_coq(a), V.to_coq(b), core.coq_bool(flags["eq_holds"])),
+                    True, case_dict(t1, t2, opt, theorem="C13_include_guarded")))
+                cnt("coq_iguard_evaluated:" + ("equation_holds" if flags["eq_holds"] else "equation_fails"))
             if len(samples) < 2 and nontriv:
                 samples.append(case_dict(t1, t2, opt, filtered_entries=len(got), unrestricted_entries=len(bt)))
-    return cases, fails, counts, seen, samples, breaks
+    return cases, fails, counts, seen, samples, breaks, gcases
 
 
 # --------------------------------------------------------------------------
@@ -1434,6 +1474,13 @@ WITNESSES = [
     ("C13_include_shadows_types_refuted", {'a': {'b': 1, 'c': 'x'}}, {'a': {'b': 2, 'c': 'y'}},
      {"zip": True, "thr": 0, "inc": ["root['a']"], "ty": ["int"], "kind": "witness"},
      {'values_changed': {"root['a']['b']": {'new_value': 2, 'old_value': 1}, "root['a']['c']": {'new_value': 'y', 'old_value': 'x'}}}),
+    ("ignore_order (outside the quantifier, not modelled): an exclusion changes the item hashes, hence the pairing - root[1]['n'] is NOT an entry of the unrestricted ignore-order run",
+     [{'id': 1, 'v': 1, 'n': 'a'}, {'id': 2, 'v': 2, 'n': 'b'}], [{'id': 2, 'v': 2, 'n': 'B'}, {'id': 1, 'v': 9, 'n': 'a'}],
+     {"zip": False, "thr": 0.33, "io": True, "rx": [r"\['v'\]$"], "kind": "witness"},
+     {'values_changed': {"root[1]['n']": {'new_value': 'B', 'old_value': 'b'}}}),
+    ("C13_value_exclusion_default_refuted", [1, 'a'], ['a', 'b'],
+     {"zip": False, "thr": 0, "ty": ["int"], "kind": "witness"},
+     {'iterable_item_added': {'root[1]': 'b'}}),
     ("include_callback_overrides_exclude_witness", {'a': 1, 'b': 's'}, {'a': 2, 'b': 't'},
      {"zip": True, "thr": 0, "ex": ["root['a']"], "icb": ["int_mod", 1, 0], "kind": "witness"},
      {'values_changed': {"root['a']": {'new_value': 2, 'old_value': 1}}}),
@@ -1451,17 +1498,157 @@ def witnesses(ctx):
 
 
 # --------------------------------------------------------------------------
+# dict keys of the extended kinds (date, datetime, Decimal, tuple): outside the Coq universe, so no
+# correspondence - the property itself, on the implementation's OWN path strings (level.path() of every
+# reported level and of its ancestors): literal / regex exclusion of such a string removes exactly the
+# entries at or below it
+# --------------------------------------------------------------------------
+
+def ext_keys():
+    import datetime
+    from decimal import Decimal
+    return [datetime.date(2020, 1, 1), datetime.date(2020, 1, 2), datetime.datetime(2020, 1, 1, 10, 0),
+            datetime.datetime(2020, 1, 1, 10, 0, 5), Decimal("1.5"), Decimal("2"), (1, 2), ("a", 1), (1,),
+            "a", "b", "it's", 1, 2.5, None, True]
+
+
+def gen_ext_pair(rng):
+    ks = ext_keys()
+
+    def val(d):
+        r = rng.random()
+        if d > 0 and r < 0.35:
+            return {k: val(d - 1) for k in rng.sample(ks, rng.randint(1, 3))}
+        if d > 0 and r < 0.5:
+            return [val(d - 1) for _ in range(rng.randint(1, 3))]
+        return rng.randint(0, 5)
+
+    def edit(v):
+        if isinstance(v, dict):
+            out = {}
+            for k, x in v.items():
+                r = rng.random()
+                if r < 0.12:
+                    continue
+                out[k] = edit(x) if r < 0.75 else x
+            if rng.random() < 0.25:
+                out[rng.choice(ks)] = rng.randint(6, 9)
+            return out
+        if isinstance(v, list):
+            out = [edit(x) if rng.random() < 0.6 else x for x in v]
+            if rng.random() < 0.2:
+                out.append(rng.randint(6, 9))
+            return out
+        return v + rng.randint(1, 3) if rng.random() < 0.8 else v
+    t1 = {k: val(2) for k in rng.sample(ks, rng.randint(2, 5))}
+    return t1, edit(t1)
+
+
+def ext_entries(t1, t2, opt):
+    """[(kind, path string, [path strings of the level and its ancestors], repr t1, repr t2)]"""
+    from deepdiff import DeepDiff
+    r = DeepDiff(copy.deepcopy(t1), copy.deepcopy(t2), view="tree", **dd_kwargs(opt))
+    out = []
+    for kind in D.KINDS:
+        for lv in r.get(kind, []) or []:
+            chain, x = [], lv
+            while x is not None:
+                chain.append(x.path())
+                x = x.up
+            out.append((kind, lv.path(), chain, repr(lv.t1), repr(lv.t2)))
+    return sorted(out, key=repr)
+
+
+def ext_check(t1, t2, opt, base=None):
+    """-> (what or None, nontrivial, candidate path strings)"""
+    if base is None:
+        base = ext_entries(t1, t2, {"zip": opt["zip"], "thr": 0})
+    exs = set(opt.get("ex", ()))
+    rxs = [crx(r) for r in opt.get("rx", ())]
+    want = [e for e in base if not any(p in exs or any(r.search(p) for r in rxs) for p in e[2])]
+    try:
+        got = ext_entries(t1, t2, opt)
+    except Exception as e:  # noqa
+        return "the filtered run raises %s: %s" % (type(e).__name__, str(e)[:150]), False
+    if [e[:2] + e[3:] for e in got] != [e[:2] + e[3:] for e in want]:
+        return ("extended dict keys: filtered result is not the unrestricted result minus the entries at or below the excluded "
+                "path strings: unexpected %r, missing %r" % ([e[:2] for e in got if e not in want][:3], [e[:2] for e in want if e not in got][:3])), False
+    return None, 0 < len(want) < len(base)
+
+
+def ext_stream(ctx, n):
+    rng = random.Random(ctx.rng.randrange(1 << 30))
+    for _ in range(n):
+        t1, t2 = gen_ext_pair(rng)
+        zip_ = rng.random() < 0.5
+        try:
+            base = ext_entries(t1, t2, {"zip": zip_, "thr": 0})
+        except Exception:  # noqa
+            ctx.count("ext_keys:unrestricted_run_raises")
+            continue
+        cand = sorted(set(p for e in base for p in e[2] if p != "root" and (zip_ or not re.search(r"\[\d+\]$", p))))
+        if not cand:
+            continue
+        for _k in range(3):
+            kind = rng.choice(["lit1", "lit1", "lit2", "rx_exact", "rx_prefix", "lit_rx"])
+            opt = {"kind": "ext_" + kind, "zip": zip_, "thr": 0}
+            if kind in ("lit1", "lit2", "lit_rx"):
+                opt["ex"] = sorted(set(rng.choice(cand) for _i in range(2 if kind == "lit2" else 1)))
+            if kind in ("rx_exact", "lit_rx"):
+                opt["rx"] = ["^" + re.escape(rng.choice(cand)) + "$"]
+            if kind == "rx_prefix":
+                opt["rx"] = ["^" + re.escape(rng.choice(cand))]
+            opt["shape"] = {k: rng.choice(SHAPES) for k in ("ex", "rx") if opt.get(k)}
+            what, nontriv = ext_check(t1, t2, opt, base)
+            ctx.evaluations += 1
+            ctx.count("ext_keys:" + kind)
+            ctx.seen(repr((repr(t1), repr(t2), sorted(opt.items(), key=repr))), nontrivial=nontriv)
+            if what:
+                ctx.fail({"ext": True, "t1": repr(t1), "t2": repr(t2), "opt": opt}, what)
+
+
+# --------------------------------------------------------------------------
+# ignore_order=True: OUTSIDE the property's quantifier (positional and default alignment mode) and outside the
+# model.  The filter equation is evaluated and COUNTED as an extension: under ignore_order an exclusion also
+# changes the DeepHash of every container above the excluded position, hence which items are equal / paired -
+# entries appear that the unrestricted run does not have (fixed witness below).
+# --------------------------------------------------------------------------
+
+def io_stream(ctx, n):
+    rng = random.Random(ctx.rng.randrange(1 << 30))
+    for _ in range(n):
+        t1, t2 = gen_pair_records(rng) if rng.random() < 0.5 else gen_pair(rng)
+        P = all_positions(t1, t2)
+        for opt in gen_options(rng, t1, t2, P, 2):
+            if value_opts(opt) or opt["kind"] in ("set_idx", "rx_flags"):
+                continue
+            opt = dict(opt, io=True, zip=False, thr=0)
+            spec = Spec(P, opt.get("ex", ()), opt.get("rx", ()), opt.get("inc", ()))
+            base = run_tree(t1, t2, {"zip": False, "thr": 0, "io": True})[0]
+            got = run_tree(t1, t2, opt)[0]
+            ctx.evaluations += 1
+            if isinstance(base, tuple) or isinstance(got, tuple):
+                ctx.count("ignore_order:raised")
+                continue
+            want = [e for e in base if spec.keep(e[1])]
+            ctx.count("ignore_order:equation_holds" if got == want else "ignore_order:equation_fails")
+            if got != want:
+                ctx.fail(case_dict(t1, t2, opt), "ignore_order=True: the filtered result is not the unrestricted ignore-order result restricted to the kept paths")
+
+
+# --------------------------------------------------------------------------
 def run(ctx):
-    npairs = 4000 if ctx.thorough else 400
+    npairs = 3000 if ctx.thorough else 400
     nopts = 10 if ctx.thorough else 8
     nw = core.NCPU
     per = (npairs + nw - 1) // nw
     tasks = [(ctx.rng.randrange(1 << 30), per, nopts) for _ in range(nw)]
     with mp.get_context("fork").Pool(nw) as pool:
         res = pool.map(_work, tasks, chunksize=1)
-    cases = []
-    for cs, fails, counts, seen, samples, breaks in res:
+    cases, gcases = [], []
+    for cs, fails, counts, seen, samples, breaks, gcs in res:
         cases += cs
+        gcases += gcs
         for b in breaks:
             ctx.break_("correspondence", b)
         for k, n in counts.items():
@@ -1473,13 +1660,24 @@ def run(ctx):
         for s in samples:
             ctx.sample(s)
     witnesses(ctx)
+    ext_stream(ctx, 1200 if ctx.thorough else 150)
+    with ctx.extension("ignore_order"):
+        io_stream(ctx, 600 if ctx.thorough else 60)
     ctx.coq_cases("c13", HDR, cases, shard=120, label="filtered_runs")
+    ctx.coq_cases("c13_guards", HDR, gcases, shard=300, label="theorem_guards_as_coq_booleans_on_real_runs")
 
 
 def replay(ctx, data):
     case = data.get("case", {})
     if "t1" not in case:
         return run(ctx)
+    if case.get("ext"):
+        what, _nt = ext_check(pyval(case["t1"]), pyval(case["t2"]), case["opt"])
+        ctx.evaluations += 1
+        print("replay (extended dict keys): " + (what or "the filter equation holds"))
+        if what:
+            ctx.fail(case, what)
+        return
     t1, t2 = rebuild(case)
     opt = case["opt"]
     vo = value_opts(opt)
